@@ -39,6 +39,30 @@ func TestC15(t *testing.T) {
 			g.TargetRemovalPct = 40
 			g.DeadFilterTargets = true
 		},
+		// now and then nested queries with generated release orders (lock bookkeeping after Reset)
+		Draw: func(rt *rapid.T, sim *core.Sim, g *core.Gen) []core.Op {
+			if rapid.IntRange(0, 19).Draw(rt, "lock?") == 0 {
+				lo := g.DrawLockOp(rt, sim.Step)
+				if lo.K == core.OpLockEpisode {
+					if len(lo.Sub) > 4 {
+						lo.Sub = lo.Sub[:4]
+					}
+					// no type registration attempts here: the fresh twin must keep the same registry
+					sub := lo.Sub[:0]
+					for _, a := range lo.Sub {
+						if a.K != core.OpRegisterNew {
+							sub = append(sub, a)
+						}
+					}
+					lo.Sub = sub
+					return []core.Op{lo}
+				}
+			}
+			if op, ok := g.Draw(rt); ok {
+				return []core.Op{op}
+			}
+			return nil
+		},
 		Rule: "segments H1, Reset, H2, Reset, ... (on average 2-3 resets per history) of relation-heavy operations with registered filters (incl. relation filters whose target handle is re-issued after the reset), resources, a listener, retired tables and dead targets left behind; after every Reset a brand-new world with the same types, the same filter values registered and a listener is created and driven in lock-step with the reset world. Oracle: right after Reset no entities, no resources, unlocked; during the segment every observable of BOTH worlds equals the same model after every op (components, values, targets, resources, plain and registered queries incl. Count, events per op), creations issue the same handles on both (until a batch call over several source tables makes row and recycling order a matter of table iteration order), and a finding is reported only if the fresh world passes where the reset world fails; IDs and registered filters from before the reset keep working; non-trivial = a segment after a reset that followed a target death or table retirement, in which a registered filter selects >= 1 entity or entities are put under a target",
 		Observe: func(tr *tracker, op *core.Op) {
 			s := tr.sim
